@@ -245,6 +245,7 @@ GSame(g, e) == ~Has(e, "G") \/ e.G = g.Gobs           \* group membership as las
 ASame(g, e) == g.alive = g.prevAlive                   \* no pool task was created or finished by this event
 SameObs(g, e) == e.o = g.lastO /\ ASame(g, e) /\ GSame(g, e)
 
+SpawnErrors == {"PoolIsLocked", "PoolIsClosed", "NotCoroutineFunction", "InvalidGroupName"}
 OnSpawn(g, e) ==
   LET isMap == e.kind \in MapKinds
       lkd   == g.lastO[5] = 1
@@ -256,6 +257,8 @@ OnSpawn(g, e) ==
       okRes == e.res = "ok"
       v1 == Chk("C09.err", e.r, okRes <=> causes = {})
             \cup Chk("C09.err", e.r, (~okRes /\ causes # {}) => (SeqSet(e.isa) \cap causes # {}))
+            \* ... and it is not, at the same time, a documented error for a cause that does not apply
+            \cup Chk("C09.err", e.r, (~okRes /\ causes # {}) => (SeqSet(e.isa) \cap SpawnErrors \subseteq causes))
             \cup Chk("C09.noeffect", e.r, ~okRes => SameObs(g, e))
             \* a request without an explicit name can never collide with a live group
             \cup Chk("C10.names", e.r, (~okRes /\ ~e.named) => "InvalidGroupName" \notin SeqSet(e.isa))
@@ -281,6 +284,7 @@ OnSpawn(g, e) ==
                    !.nstart = IF okRes /\ e.kind = "start" THEN @ + 1 ELSE @], v1,
          Hit("C09.err", causes # {}) \cup Hit("C09.multi", Card(causes) > 1) \cup Hit("C10.names", okRes))
 
+TaskErrors == {"InvalidTaskID", "AlreadyCancelled", "AlreadyEnded"}
 ErrClassOf(g, id) ==    \* which errors cancel(id) may raise for this id
   IF id \notin g.C \/ id \in g.forgot THEN {"InvalidTaskID"}
   ELSE (IF id \in g.maybe THEN {"InvalidTaskID"} ELSE {})
@@ -295,7 +299,9 @@ OnCancel(g, e) ==
       okRes == e.res = "ok"
       v1 == Chk("C06.err", -1, okRes => possible)
             \cup Chk("C06.err", -1, definite => okRes)
-            \cup Chk("C06.err", -1, ~okRes => \E id \in offenders : SeqSet(e.isa) \cap ErrClassOf(g, id) # {})
+            (* the matching error - and not one that is, at the same time, one of the other two documented errors *)
+            \cup Chk("C06.err", -1, ~okRes => \E id \in offenders : /\ SeqSet(e.isa) \cap ErrClassOf(g, id) # {}
+                                                                      /\ SeqSet(e.isa) \cap TaskErrors \subseteq ErrClassOf(g, id))
             \cup Chk("C06.allornothing", -1, ~okRes => e.o = g.lastO)
       T2 == IF okRes
             THEN [id \in DOMAIN g.T |-> IF id \in ids /\ g.T[id].fin = "no"
